@@ -41,10 +41,45 @@ def operatorHooks : List String :=
    "__le__", "__ge__", "__ne__", "__bool__", "__len__", "__hash__", "__setattr__", "__getattr__",
    "__getattribute__", "__delattr__", "__copy__", "__deepcopy__"]
 
-/-- `x += y` / `x -= y` on a class without in-place operators: the name is rebound to a NEW value and the object
-that was bound before (the operand) keeps its value.  Result = (new binding, old object afterwards). -/
-def augAdd (x y : Cap) : Cap × Cap := (add x y, x)
-def augSub (x y : Cap) : Cap × Cap := (sub x y, x)
+/-- `x += y` / `x -= y`: result = (what the name is bound to afterwards, the object that was bound before, afterwards).
+The translator probes the real objects (`iaddInPlace` / `isubInPlace`): without an in-place operator the name is rebound to a
+NEW value and the old object keeps its value; an in-place operator would change the old object itself. -/
+def augAdd (x y : Cap) : Cap × Cap := if iaddInPlace then (add x y, add x y) else (add x y, x)
+def augSub (x y : Cap) : Cap × Cap := if isubInPlace then (sub x y, sub x y) else (sub x y, x)
+
+/-! ### objects and references
+
+Python variables hold references.  A *state* is a store of capacity objects (object id = position, objects are never freed
+while the program runs) and an environment binding each variable to an object id.  A *program* is a sequence of the statements
+through which capacities are combined: `d = x + y`, `d = x - y`, `x += y`, `x -= y`, `d = FreeCapacity(total=t, allocated=a).free`
+and plain aliasing `d = x`.  (Comparisons, `negative_fields`, `str` have no effect on the state.) -/
+
+structure St where
+  heap : List Cap
+  env : List Nat
+
+inductive Stmt where
+  | bin (isAdd : Bool) (d x y : Nat)
+  | aug (isAdd : Bool) (x y : Nat)
+  | free (d t a : Nat)
+  | alias (d x : Nat)
+deriving Repr, DecidableEq
+
+def St.obj (s : St) (v : Nat) : Nat := s.env.getD v 0
+def St.val (s : St) (v : Nat) : Cap := s.heap.getD (s.obj v) zero
+
+/-- allocate a new object and bind variable `d` to it -/
+def St.bindNew (s : St) (d : Nat) (c : Cap) : St := { heap := s.heap ++ [c], env := s.env.set d s.heap.length }
+
+def step (s : St) : Stmt → St
+  | .bin isAdd d x y => s.bindNew d (if isAdd then add (s.val x) (s.val y) else sub (s.val x) (s.val y))
+  | .aug isAdd x y =>
+    let c := if isAdd then add (s.val x) (s.val y) else sub (s.val x) (s.val y)
+    if (if isAdd then iaddInPlace else isubInPlace) then { s with heap := s.heap.set (s.obj x) c } else s.bindNew x c
+  | .free d t a => s.bindNew d (free (s.val t) (s.val a))
+  | .alias d x => { s with env := s.env.set d (s.obj x) }
+
+def run (p : List Stmt) (s : St) : St := p.foldl step s
 
 /-- observable content: the values in field order -/
 def toList (x : Cap) : List Int := fields.map x
